@@ -278,7 +278,8 @@ def run(ctx):
     import ast as _ast
     SCAL = {'int', 'float', 'integer', 'floating', 'number', 'Number', 'Real', 'Integral', 'generic', 'complex', 'complexfloating'}
     n_sc = 0
-    for n in _ast.walk(fi.node):
+    from .common import family_walk
+    for n in family_walk(ctx, fi):
         if isinstance(n, _ast.Call) and isinstance(n.func, _ast.Name) and n.func.id == 'isinstance' and len(n.args) == 2:
             tys = n.args[1].elts if isinstance(n.args[1], _ast.Tuple) else [n.args[1]]
             names = {_ast.unparse(t).split('.')[-1] for t in tys}
@@ -333,7 +334,7 @@ def run(ctx):
                                  'doppler_smearing': TRUE, 'bounding_f_range': NONE, 'bp_profile': NONE}, no_inline=(FR + 'get_index',))
         for e in I.events:
             if e.kind == 'store' and e.data.get('target') == 'name' and e.data.get('aug') in ('Add', 'Sub', 'Mult', 'Div') \
-                    and e.func.short == fi.short and e.loops:
+                    and e.owner == fi.short and e.loops:
                 n_aug += 1
                 old, rhs = e.data['old'], e.data['rhs']
                 # the array updated in place at loop entry: what it was bound to before the loop
